@@ -150,20 +150,31 @@ func TestC05(t *testing.T) {
 		v := th.PickVariant(rt, th.AllVariants...)
 		v.MustInit()
 		o := model.GenOpts{MaxList: 4}
-		switch rapid.IntRange(0, 9).Draw(rt, "shape") {
-		case 0, 1, 2, 3, 4, 5:
+		focus := rapid.SampledFrom([]string{"none", "none", "none", "none", "ordered", "ordered", "unkeyed", "leaf-list"}).Draw(rt, "focus")
+		fk := map[string]model.FKind{"ordered": model.FOrdList, "unkeyed": model.FUList, "leaf-list": model.FLeafList}[focus]
+		switch shape := rapid.IntRange(0, 9).Draw(rt, "shape"); {
+		case focus != "none":
+			o.MaxList = 5
+			key := v.Name + "/" + focus
+			w, ok := c05Want[key]
+			if !ok {
+				w = wantBelow(func(f *model.FieldInfo) bool { return f.Kind == fk })
+				c05Want[key] = w
+			}
+			o.Want = w
+		case shape <= 5:
 			w, ok := c05Want[v.Name]
 			if !ok {
 				w = wantBelow(c05Interesting)
 				c05Want[v.Name] = w
 			}
 			o.Want = w
-		case 6:
+		case shape == 6:
 			o.Sparse = true
 		}
 		m := model.GenTree(rt, v, o)
 		mode := rapid.SampledFrom([]string{"disjoint", "compat", "compat", "rare", "rare", "rare", "mixed"}).Draw(rt, "split")
-		sp := &splitter{rt: rt, v: v, compat: mode == "compat", disjoint: mode == "disjoint", rare: mode == "rare"}
+		sp := &splitter{rt: rt, v: v, compat: mode == "compat", disjoint: mode == "disjoint", rare: mode == "rare", focus: fk, hasFocus: focus != "none"}
 		a, b := sp.split(m)
 		overwrite := rapid.IntRange(0, 2).Draw(rt, "overwrite") == 0
 		var opts []ygot.MergeOpt
@@ -175,7 +186,7 @@ func TestC05(t *testing.T) {
 		for c := range ref.Classes {
 			classes = append(classes, c)
 		}
-		classes = uniq(append(classes, "split:"+mode, fmt.Sprintf("overwrite:%v", overwrite)))
+		classes = uniq(append(classes, "split:"+mode, "focus:"+focus, fmt.Sprintf("overwrite:%v", overwrite)))
 		switch {
 		case !ref.ok():
 			classes = append(classes, "expect:fail")
